@@ -210,7 +210,10 @@ mod conn {
             loop {
                 for (i, e) in self.eps.iter().enumerate() {
                     if let Some(l) = &e.listener {
-                        while let Ok((_s, _)) = l.accept() {
+                        while let Ok((s, _)) = l.accept() {
+                            // close with RST: no TIME_WAIT entry is left behind (tens of thousands of them
+                            // exhaust the ports a `bind(ip, 0)` before connect can pick from)
+                            let _ = socket2::SockRef::from(&s).set_linger(Some(Duration::ZERO));
                             *out[i].as_mut().unwrap() += 1;
                         }
                     }
@@ -357,6 +360,16 @@ fn is_ip_literal(s: &str) -> Option<IpAddr> {
 }
 
 fn run_conn_op(rt: &tokio::runtime::Runtime, cx: &Ctx, op: &ConnOp, rep: &mut T3Sink) -> String {
+    run_conn_op_attempt(rt, cx, op, rep, 0)
+}
+
+/// EADDRINUSE: only the machine running out of local ports (other loopback-heavy jobs, TIME_WAIT) produces
+/// it here; such an attempt says nothing about the connector and is repeated after a pause
+const EADDRINUSE: i32 = 98;
+static ENV_RETRIES: std::sync::atomic::AtomicUsize = std::sync::atomic::AtomicUsize::new(0);
+
+fn run_conn_op_attempt(rt: &tokio::runtime::Runtime, cx: &Ctx, op: &ConnOp, rep: &mut T3Sink, attempt: usize) -> String {
+    let mut env98 = false;
     let log = Rc::new(RefCell::new(vec![]));
     let resolver = match &op.res {
         None => Resolver::default(),
@@ -492,11 +505,15 @@ fn run_conn_op(rt: &tokio::runtime::Runtime, cx: &Ctx, op: &ConnOp, rep: &mut T3
             let mut last_err = None;
             for a in addrs {
                 match rt.block_on(async { tokio::time::timeout(Duration::from_secs(20), direct_connect(*a, local)).await }) {
-                    Ok(Ok(_s)) => {
+                    Ok(Ok(s)) => {
+                        let _ = s.set_linger(Some(Duration::ZERO));
                         first_ok = Some(*a);
                         break;
                     }
-                    Ok(Err(e)) => last_err = Some(e),
+                    Ok(Err(e)) => {
+                        env98 |= e.raw_os_error() == Some(EADDRINUSE);
+                        last_err = Some(e)
+                    }
                     Err(_) => {
                         rep.note("reference connect timed out; ordered-fallback oracle skipped for this op");
                         first_ok = None;
@@ -541,10 +558,22 @@ fn run_conn_op(rt: &tokio::runtime::Runtime, cx: &Ctx, op: &ConnOp, rep: &mut T3
         }
         _ => fail(format!("unexpected result shape {res}")),
     }
+    match &r {
+        Out::Stream(_, _, io) => {
+            let _ = io.set_linger(Some(Duration::ZERO));
+        }
+        Out::Err(ConnectError::Io(e)) => env98 |= e.raw_os_error() == Some(EADDRINUSE),
+        _ => {}
+    }
+    drop(r);
+    if env98 && attempt < 20 && ENV_RETRIES.fetch_add(1, std::sync::atomic::Ordering::Relaxed) < 200 {
+        rep.note(&format!("EADDRINUSE (the machine is short of local ports): attempt {attempt} of this op is discarded and repeated"));
+        std::thread::sleep(Duration::from_millis(100 + 100 * attempt as u64));
+        return run_conn_op_attempt(rt, cx, op, rep, attempt + 1);
+    }
     for m in fails {
         rep.t3("C19", &m);
     }
-    drop(r);
     format!("lk={lk} res={res} acc={}", fmt_acc(&acc))
 }
 
@@ -715,32 +744,273 @@ mod acc {
     use super::pki;
     use vh::Rng;
 
-    /// in-memory transport handed to the acceptor (`tokio::io::duplex` end)
-    pub struct Dx(pub DuplexStream);
+    /// Knobs and counters of one server-side transport, shared between the `Dx` handed to the acceptor and
+    /// the harness.  With the defaults (`cap = 0`, `rchunk = 0`, `buffered = false`, readiness always ready)
+    /// `Dx` behaves exactly like the bare `tokio::io::duplex` end (this is what the handshake ops use).
+    #[derive(Default)]
+    pub struct CtlIn {
+        /// write window: at most this many bytes written by the acceptor side may be waiting for the harness
+        /// (the "pipe buffer"); 0 = unlimited
+        pub cap: usize,
+        pub inflight: usize,
+        wwaker: Option<Waker>,
+        /// at most this many bytes per `poll_read`, each delivery followed by one self-woken `Pending`; 0 = off
+        pub rchunk: usize,
+        owe_pending: bool,
+        /// BufWriter-like transport: written bytes sit in `wbuf` until it is full, flushed or shut down
+        pub buffered: bool,
+        pub wbuf: Vec<u8>,
+        /// answers of `ActixStream::poll_read_ready` / `poll_write_ready`
+        pub rd_pending: bool,
+        pub wr_pending: bool,
+        rd_waker: Option<Waker>,
+        wr_waker: Option<Waker>,
+        pub n_rready: u64,
+        pub n_wready: u64,
+        pub n_flush: u64,
+        pub n_shutdown: u64,
+    }
+    #[derive(Default)]
+    pub struct Ctl(pub std::sync::Mutex<CtlIn>);
+    impl Ctl {
+        pub fn with<T>(&self, f: impl FnOnce(&mut CtlIn) -> T) -> T {
+            f(&mut self.0.lock().unwrap())
+        }
+        /// the harness took `n` bytes out of the pipe: the window re-opens
+        pub fn credit(&self, n: usize) {
+            let w = self.with(|c| {
+                c.inflight = c.inflight.saturating_sub(n);
+                if n > 0 { c.wwaker.take() } else { None }
+            });
+            if let Some(w) = w {
+                w.wake();
+            }
+        }
+        /// the transport becomes readable / writable: wake whoever asked
+        pub fn fire(&self, read: bool) {
+            let w = self.with(|c| if read { c.rd_pending = false; c.rd_waker.take() } else { c.wr_pending = false; c.wr_waker.take() });
+            if let Some(w) = w {
+                w.wake();
+            }
+        }
+    }
+
+    /// in-memory transport handed to the acceptor (`tokio::io::duplex` end behind the knobs of `Ctl`)
+    pub struct Dx {
+        io: DuplexStream,
+        ctl: Arc<Ctl>,
+    }
+    impl Dx {
+        pub fn plain(io: DuplexStream) -> Dx {
+            Dx { io, ctl: Arc::new(Ctl::default()) }
+        }
+        pub fn with_ctl(io: DuplexStream, ctl: Arc<Ctl>) -> Dx {
+            Dx { io, ctl }
+        }
+    }
+    /// write into the pipe, honouring the window
+    fn raw_write(io: &mut DuplexStream, c: &mut CtlIn, cx: &mut Context<'_>, buf: &[u8]) -> Poll<std::io::Result<usize>> {
+        let n = if c.cap == 0 {
+            buf.len()
+        } else {
+            let avail = c.cap.saturating_sub(c.inflight);
+            if avail == 0 {
+                c.wwaker = Some(cx.waker().clone());
+                return Poll::Pending;
+            }
+            buf.len().min(avail)
+        };
+        match Pin::new(io).poll_write(cx, &buf[..n]) {
+            Poll::Ready(Ok(m)) => {
+                c.inflight += m;
+                Poll::Ready(Ok(m))
+            }
+            other => other,
+        }
+    }
+    fn drain_wbuf(io: &mut DuplexStream, c: &mut CtlIn, cx: &mut Context<'_>) -> Poll<std::io::Result<()>> {
+        while !c.wbuf.is_empty() {
+            let data = std::mem::take(&mut c.wbuf);
+            match raw_write(io, c, cx, &data) {
+                Poll::Ready(Ok(m)) => c.wbuf = data[m..].to_vec(),
+                Poll::Pending => {
+                    c.wbuf = data;
+                    return Poll::Pending;
+                }
+                Poll::Ready(Err(e)) => {
+                    c.wbuf = data;
+                    return Poll::Ready(Err(e));
+                }
+            }
+        }
+        Poll::Ready(Ok(()))
+    }
     impl AsyncRead for Dx {
-        fn poll_read(mut self: Pin<&mut Self>, cx: &mut Context<'_>, buf: &mut ReadBuf<'_>) -> Poll<std::io::Result<()>> {
-            Pin::new(&mut self.0).poll_read(cx, buf)
+        fn poll_read(self: Pin<&mut Self>, cx: &mut Context<'_>, buf: &mut ReadBuf<'_>) -> Poll<std::io::Result<()>> {
+            let this = self.get_mut();
+            let mut c = this.ctl.0.lock().unwrap();
+            if c.rchunk == 0 || buf.remaining() == 0 {
+                return Pin::new(&mut this.io).poll_read(cx, buf);
+            }
+            if c.owe_pending {
+                // a legal spurious `Pending`: the task is woken at once
+                c.owe_pending = false;
+                cx.waker().wake_by_ref();
+                return Poll::Pending;
+            }
+            let mut tmp = vec![0u8; c.rchunk.min(buf.remaining())];
+            let mut rb = ReadBuf::new(&mut tmp);
+            match Pin::new(&mut this.io).poll_read(cx, &mut rb) {
+                Poll::Ready(Ok(())) => {
+                    if !rb.filled().is_empty() {
+                        c.owe_pending = true;
+                    }
+                    buf.put_slice(rb.filled());
+                    Poll::Ready(Ok(()))
+                }
+                other => other,
+            }
         }
     }
     impl AsyncWrite for Dx {
-        fn poll_write(mut self: Pin<&mut Self>, cx: &mut Context<'_>, buf: &[u8]) -> Poll<std::io::Result<usize>> {
-            Pin::new(&mut self.0).poll_write(cx, buf)
+        fn poll_write(self: Pin<&mut Self>, cx: &mut Context<'_>, buf: &[u8]) -> Poll<std::io::Result<usize>> {
+            let this = self.get_mut();
+            let mut c = this.ctl.0.lock().unwrap();
+            if buf.is_empty() {
+                return Poll::Ready(Ok(0));
+            }
+            if c.buffered {
+                let lim = if c.cap > 0 { c.cap } else { 8192 };
+                if c.wbuf.len() >= lim {
+                    // a full buffer is written out, as `BufWriter` does
+                    match drain_wbuf(&mut this.io, &mut c, cx) {
+                        Poll::Ready(Ok(())) => {}
+                        Poll::Ready(Err(e)) => return Poll::Ready(Err(e)),
+                        Poll::Pending => return Poll::Pending,
+                    }
+                }
+                let n = buf.len().min(lim - c.wbuf.len());
+                c.wbuf.extend_from_slice(&buf[..n]);
+                return Poll::Ready(Ok(n));
+            }
+            raw_write(&mut this.io, &mut c, cx, buf)
         }
-        fn poll_flush(mut self: Pin<&mut Self>, cx: &mut Context<'_>) -> Poll<std::io::Result<()>> {
-            Pin::new(&mut self.0).poll_flush(cx)
+        fn poll_flush(self: Pin<&mut Self>, cx: &mut Context<'_>) -> Poll<std::io::Result<()>> {
+            let this = self.get_mut();
+            let mut c = this.ctl.0.lock().unwrap();
+            c.n_flush += 1;
+            match drain_wbuf(&mut this.io, &mut c, cx) {
+                Poll::Ready(Ok(())) => {}
+                other => return other,
+            }
+            Pin::new(&mut this.io).poll_flush(cx)
         }
-        fn poll_shutdown(mut self: Pin<&mut Self>, cx: &mut Context<'_>) -> Poll<std::io::Result<()>> {
-            Pin::new(&mut self.0).poll_shutdown(cx)
+        fn poll_shutdown(self: Pin<&mut Self>, cx: &mut Context<'_>) -> Poll<std::io::Result<()>> {
+            let this = self.get_mut();
+            let mut c = this.ctl.0.lock().unwrap();
+            c.n_shutdown += 1;
+            // closing hands whatever is buffered to the pipe at once, window or not: `poll_shutdown` of this
+            // transport never waits (like a socket's).  tokio-openssl calls `SSL_shutdown` again when the
+            // transport's shutdown was pending, which then waits for the peer's close_notify: that is
+            // the wrapped library's business, not the pass-through wrapper's, and is kept out of the picture.
+            let cap = std::mem::replace(&mut c.cap, 0);
+            let r = drain_wbuf(&mut this.io, &mut c, cx);
+            c.cap = cap;
+            match r {
+                Poll::Ready(Ok(())) => {}
+                other => return other,
+            }
+            Pin::new(&mut this.io).poll_shutdown(cx)
         }
+    }
+    /// what the transport answers when it is ready (distinct, recognisable values)
+    pub fn rd_ready_value() -> Ready {
+        Ready::READABLE | Ready::READ_CLOSED
+    }
+    pub fn wr_ready_value() -> Ready {
+        Ready::WRITABLE | Ready::WRITE_CLOSED
     }
     impl ActixStream for Dx {
-        fn poll_read_ready(&self, _: &mut Context<'_>) -> Poll<std::io::Result<Ready>> {
-            Poll::Ready(Ok(Ready::READABLE))
+        fn poll_read_ready(&self, cx: &mut Context<'_>) -> Poll<std::io::Result<Ready>> {
+            self.ctl.with(|c| {
+                c.n_rready += 1;
+                if c.rd_pending {
+                    c.rd_waker = Some(cx.waker().clone());
+                    Poll::Pending
+                } else {
+                    Poll::Ready(Ok(rd_ready_value()))
+                }
+            })
         }
-        fn poll_write_ready(&self, _: &mut Context<'_>) -> Poll<std::io::Result<Ready>> {
-            Poll::Ready(Ok(Ready::WRITABLE))
+        fn poll_write_ready(&self, cx: &mut Context<'_>) -> Poll<std::io::Result<Ready>> {
+            self.ctl.with(|c| {
+                c.n_wready += 1;
+                if c.wr_pending {
+                    c.wr_waker = Some(cx.waker().clone());
+                    Poll::Pending
+                } else {
+                    Poll::Ready(Ok(wr_ready_value()))
+                }
+            })
         }
     }
+
+    /// the harness's end of the server transport as seen by the pump: taking bytes re-opens the window
+    struct Mid<'a> {
+        io: &'a mut DuplexStream,
+        ctl: Arc<Ctl>,
+    }
+    impl AsyncRead for Mid<'_> {
+        fn poll_read(self: Pin<&mut Self>, cx: &mut Context<'_>, buf: &mut ReadBuf<'_>) -> Poll<std::io::Result<()>> {
+            let this = self.get_mut();
+            let before = buf.filled().len();
+            let r = Pin::new(&mut *this.io).poll_read(cx, buf);
+            this.ctl.credit(buf.filled().len() - before);
+            r
+        }
+    }
+    impl AsyncWrite for Mid<'_> {
+        fn poll_write(self: Pin<&mut Self>, cx: &mut Context<'_>, buf: &[u8]) -> Poll<std::io::Result<usize>> {
+            Pin::new(&mut *self.get_mut().io).poll_write(cx, buf)
+        }
+        fn poll_flush(self: Pin<&mut Self>, cx: &mut Context<'_>) -> Poll<std::io::Result<()>> {
+            Pin::new(&mut *self.get_mut().io).poll_flush(cx)
+        }
+        fn poll_shutdown(self: Pin<&mut Self>, cx: &mut Context<'_>) -> Poll<std::io::Result<()>> {
+            Pin::new(&mut *self.get_mut().io).poll_shutdown(cx)
+        }
+    }
+
+    /// an accepted stream as the harness uses it: the `AsyncRead`/`AsyncWrite` impls of the wrapper under
+    /// test plus its `ActixStream` readiness methods and the vectored-write hint (wrapper, wrapped stream)
+    pub trait SrvIo: AsyncRead + AsyncWrite + Unpin {
+        fn rd_ready(&self, cx: &mut Context<'_>) -> Poll<std::io::Result<Ready>>;
+        fn wr_ready(&self, cx: &mut Context<'_>) -> Poll<std::io::Result<Ready>>;
+        fn wv(&self) -> (bool, bool);
+    }
+    impl SrvIo for a_rustls::TlsStream<Dx> {
+        fn rd_ready(&self, cx: &mut Context<'_>) -> Poll<std::io::Result<Ready>> {
+            ActixStream::poll_read_ready(self, cx)
+        }
+        fn wr_ready(&self, cx: &mut Context<'_>) -> Poll<std::io::Result<Ready>> {
+            ActixStream::poll_write_ready(self, cx)
+        }
+        fn wv(&self) -> (bool, bool) {
+            (AsyncWrite::is_write_vectored(self), AsyncWrite::is_write_vectored(&**self))
+        }
+    }
+    impl SrvIo for a_ossl::TlsStream<Dx> {
+        fn rd_ready(&self, cx: &mut Context<'_>) -> Poll<std::io::Result<Ready>> {
+            ActixStream::poll_read_ready(self, cx)
+        }
+        fn wr_ready(&self, cx: &mut Context<'_>) -> Poll<std::io::Result<Ready>> {
+            ActixStream::poll_write_ready(self, cx)
+        }
+        fn wv(&self) -> (bool, bool) {
+            (AsyncWrite::is_write_vectored(self), AsyncWrite::is_write_vectored(&**self))
+        }
+    }
+    pub type BoxSrv = Box<dyn SrvIo>;
 
     /// a waker that only records that it was woken
     pub struct Flag(pub AtomicBool);
@@ -807,6 +1077,302 @@ mod acc {
         true
     }
 
+    #[derive(Clone, Copy, PartialEq, Debug)]
+    pub enum Dir {
+        S2c,
+        C2s,
+        Both,
+    }
+    #[derive(Clone, Copy, PartialEq, Debug)]
+    pub enum WMode {
+        All,
+        Chunk,
+        CFlush,
+        Vectored,
+    }
+    #[derive(Clone, Copy, PartialEq, Debug)]
+    pub enum Fin {
+        Flush,
+        Shut,
+    }
+    #[derive(Clone, Copy, PartialEq, Debug)]
+    pub enum RMode {
+        Exact,
+        Small,
+    }
+    /// parameters of an `xfer` op (see `AccCase::op_xfer`)
+    pub struct XferP {
+        pub dir: Dir,
+        pub n: usize,
+        pub seed: u64,
+        pub cap: usize,
+        pub rchunk: usize,
+        pub buffered: bool,
+        pub w: WMode,
+        pub fin: Fin,
+        pub r: RMode,
+        pub text: String,
+    }
+    /// decimal without sign, leading zeros or separators (the same strictness as the model's parser)
+    fn canon_num(s: &str, max: u64) -> Option<u64> {
+        s.parse::<u64>().ok().filter(|v| v.to_string() == s && *v <= max)
+    }
+    impl XferP {
+        pub fn parse(ws: &[&str]) -> Option<XferP> {
+            match ws {
+                [dir, n, seed, cap, rchunk, tb, w, fin, r] => Some(XferP {
+                    dir: match *dir {
+                        "s2c" => Dir::S2c,
+                        "c2s" => Dir::C2s,
+                        "both" => Dir::Both,
+                        _ => return None,
+                    },
+                    n: canon_num(n, 1 << 20)? as usize,
+                    seed: canon_num(seed, u64::MAX)?,
+                    cap: canon_num(cap, 1 << 22)? as usize,
+                    rchunk: canon_num(rchunk, 1 << 22)? as usize,
+                    buffered: match *tb {
+                        "d" => false,
+                        "b" => true,
+                        _ => return None,
+                    },
+                    w: match *w {
+                        "all" => WMode::All,
+                        "chunk" => WMode::Chunk,
+                        "cflush" => WMode::CFlush,
+                        "vec" => WMode::Vectored,
+                        _ => return None,
+                    },
+                    fin: match *fin {
+                        "flush" => Fin::Flush,
+                        "shut" => Fin::Shut,
+                        _ => return None,
+                    },
+                    r: match *r {
+                        "exact" => RMode::Exact,
+                        "small" => RMode::Small,
+                        _ => return None,
+                    },
+                    text: ws.join(" "),
+                }),
+                _ => None,
+            }
+        }
+    }
+
+    #[derive(Clone, Copy, PartialEq, Debug)]
+    enum WState {
+        Write,
+        FlushMid,
+        FlushEnd,
+        Shut,
+        Done,
+    }
+    #[derive(Clone, Copy, PartialEq, Debug)]
+    enum RState {
+        Read,
+        Eof,
+        Done,
+    }
+    /// one end of a transfer: a writer and a reader state machine over the same stream, polled by hand so
+    /// that exactly the `AsyncRead` / `AsyncWrite` methods named here are the ones that get called
+    struct Side {
+        out: Vec<u8>,
+        wpos: usize,
+        chunk_end: usize,
+        cuts: Vec<usize>,
+        w: WMode,
+        fin: Fin,
+        ws: WState,
+        expect: usize,
+        got: Vec<u8>,
+        r: RMode,
+        rs: RState,
+        rwant: usize,
+        rbuf: Vec<u8>,
+        rng: Rng,
+        err: Option<String>,
+    }
+    impl Side {
+        fn new(out: Vec<u8>, expect: usize, p: &XferP, seed: u64) -> Side {
+            Side {
+                out,
+                wpos: 0,
+                chunk_end: 0,
+                cuts: vec![],
+                w: p.w,
+                fin: p.fin,
+                ws: WState::Write,
+                expect,
+                got: Vec::with_capacity(expect),
+                r: p.r,
+                rs: RState::Read,
+                rwant: 0,
+                rbuf: vec![],
+                rng: Rng::new(seed),
+                err: None,
+            }
+        }
+        fn wstate(&self) -> String {
+            match self.ws {
+                WState::Done => match self.fin {
+                    Fin::Flush => "wrote and flushed everything".into(),
+                    Fin::Shut => "wrote everything and shut down".into(),
+                },
+                WState::Write => format!("has written {}/{}", self.wpos, self.out.len()),
+                WState::FlushMid | WState::FlushEnd => format!("is flushing after {}/{}", self.wpos, self.out.len()),
+                WState::Shut => "is shutting down".into(),
+            }
+        }
+        /// true when both the writer and the reader are done (or one of them failed)
+        fn poll<S: AsyncRead + AsyncWrite + Unpin + ?Sized>(&mut self, io: &mut S, cx: &mut Context<'_>) -> bool {
+            if self.err.is_some() {
+                return true;
+            }
+            loop {
+                match self.ws {
+                    WState::Write => {
+                        if self.wpos == self.out.len() {
+                            self.ws = if self.fin == Fin::Flush { WState::FlushEnd } else { WState::Shut };
+                            continue;
+                        }
+                        if self.chunk_end <= self.wpos {
+                            let rest = self.out.len() - self.wpos;
+                            let len = match self.w {
+                                WMode::All => rest,
+                                _ => (*self.rng.pick(&[1usize, 2, 7, 100, 1000, 4096, 16384, 16385, 20000, 70000])).min(rest),
+                            };
+                            self.chunk_end = self.wpos + len;
+                            self.cuts.clear();
+                        }
+                        let r = if self.w == WMode::Vectored {
+                            if self.cuts.is_empty() {
+                                // 1..4 slices (some possibly empty) covering [wpos, chunk_end); kept until progress is made
+                                let k = self.rng.below(4);
+                                let mut cs: Vec<usize> = (0..k).map(|_| self.wpos + self.rng.below(self.chunk_end - self.wpos + 1)).collect();
+                                cs.push(self.wpos);
+                                cs.push(self.chunk_end);
+                                cs.sort();
+                                self.cuts = cs;
+                            }
+                            let slices: Vec<std::io::IoSlice<'_>> = self.cuts.windows(2).map(|w| std::io::IoSlice::new(&self.out[w[0]..w[1]])).collect();
+                            Pin::new(&mut *io).poll_write_vectored(cx, &slices)
+                        } else {
+                            Pin::new(&mut *io).poll_write(cx, &self.out[self.wpos..self.chunk_end])
+                        };
+                        match r {
+                            Poll::Pending => break,
+                            Poll::Ready(Ok(n)) if n == 0 || n > self.chunk_end - self.wpos => {
+                                self.err = Some(format!("write of {} bytes answered Ok({n})", self.chunk_end - self.wpos));
+                                return true;
+                            }
+                            Poll::Ready(Ok(n)) => {
+                                self.wpos += n;
+                                self.cuts.clear();
+                                if self.wpos == self.chunk_end && self.w == WMode::CFlush {
+                                    self.ws = WState::FlushMid;
+                                }
+                            }
+                            Poll::Ready(Err(e)) => {
+                                self.err = Some(format!("write error after {} bytes: {e}", self.wpos));
+                                return true;
+                            }
+                        }
+                    }
+                    WState::FlushMid | WState::FlushEnd => match Pin::new(&mut *io).poll_flush(cx) {
+                        Poll::Pending => break,
+                        Poll::Ready(Ok(())) => self.ws = if self.ws == WState::FlushMid { WState::Write } else { WState::Done },
+                        Poll::Ready(Err(e)) => {
+                            self.err = Some(format!("flush error after {} bytes: {e}", self.wpos));
+                            return true;
+                        }
+                    },
+                    WState::Shut => match Pin::new(&mut *io).poll_shutdown(cx) {
+                        Poll::Pending => break,
+                        Poll::Ready(Ok(())) => self.ws = WState::Done,
+                        Poll::Ready(Err(e)) => {
+                            self.err = Some(format!("shutdown error after {} bytes: {e}", self.wpos));
+                            return true;
+                        }
+                    },
+                    WState::Done => break,
+                }
+            }
+            loop {
+                match self.rs {
+                    RState::Read => {
+                        if self.got.len() == self.expect {
+                            self.rs = if self.fin == Fin::Shut { RState::Eof } else { RState::Done };
+                            continue;
+                        }
+                        if self.rwant == 0 {
+                            let rest = self.expect - self.got.len();
+                            self.rwant = match self.r {
+                                RMode::Exact => rest,
+                                RMode::Small => (*self.rng.pick(&[1usize, 2, 3, 16, 100, 1000, 4096])).min(rest),
+                            };
+                            if self.rbuf.len() < self.rwant {
+                                self.rbuf.resize(self.rwant, 0);
+                            }
+                        }
+                        let mut rb = ReadBuf::new(&mut self.rbuf[..self.rwant]);
+                        match Pin::new(&mut *io).poll_read(cx, &mut rb) {
+                            Poll::Pending => break,
+                            Poll::Ready(Ok(())) => {
+                                let n = rb.filled().len();
+                                if n == 0 {
+                                    self.err = Some(format!("end of stream after {} of {} bytes", self.got.len(), self.expect));
+                                    return true;
+                                }
+                                self.got.extend_from_slice(&self.rbuf[..n]);
+                                // `exact`: keep filling the one buffer; `small`: a new small buffer for every read
+                                self.rwant = if self.r == RMode::Exact { self.rwant - n } else { 0 };
+                            }
+                            Poll::Ready(Err(e)) => {
+                                self.err = Some(format!("read error after {} of {} bytes: {e}", self.got.len(), self.expect));
+                                return true;
+                            }
+                        }
+                    }
+                    RState::Eof => {
+                        let mut tmp = [0u8; 16];
+                        let mut rb = ReadBuf::new(&mut tmp);
+                        match Pin::new(&mut *io).poll_read(cx, &mut rb) {
+                            Poll::Pending => break,
+                            Poll::Ready(Ok(())) if rb.filled().is_empty() => self.rs = RState::Done,
+                            Poll::Ready(Ok(())) => {
+                                self.err = Some(format!("{} more bytes than the {} written arrive before the end of stream", rb.filled().len(), self.expect));
+                                return true;
+                            }
+                            Poll::Ready(Err(e)) => {
+                                self.err = Some(format!("no clean end of stream after the {} payload bytes: {e}", self.expect));
+                                return true;
+                            }
+                        }
+                    }
+                    RState::Done => break,
+                }
+            }
+            self.ws == WState::Done && self.rs == RState::Done
+        }
+    }
+    /// one non-blocking read on a stream that should have nothing to deliver
+    fn probe_read<S: AsyncRead + Unpin + ?Sized>(io: &mut S, cx: &mut Context<'_>, who: &str, extra: &mut Vec<String>) {
+        let mut tmp = [0u8; 16];
+        let mut rb = ReadBuf::new(&mut tmp);
+        if let Poll::Ready(r) = Pin::new(io).poll_read(cx, &mut rb) {
+            extra.push(match r {
+                Ok(()) if rb.filled().is_empty() => format!("the {who} side sees end of stream although nobody shut down"),
+                Ok(()) => format!("the {who} side reads {} more bytes than were written", rb.filled().len()),
+                Err(e) => format!("the {who} side reads an error after the payload: {e}"),
+            });
+        }
+    }
+    /// number of positions at which two byte strings differ (length difference included)
+    fn diff(a: &[u8], b: &[u8]) -> usize {
+        a.iter().zip(b.iter()).filter(|(x, y)| x != y).count() + a.len().max(b.len()) - a.len().min(b.len())
+    }
+
     pub type BoxIo = Box<dyn IoBoth>;
     pub trait IoBoth: AsyncRead + AsyncWrite + Unpin {}
     impl<T: AsyncRead + AsyncWrite + Unpin> IoBoth for T {}
@@ -827,7 +1393,7 @@ mod acc {
         }
     }
 
-    type SFut = Pin<Box<dyn Future<Output = Result<BoxIo, Outcome>>>>;
+    type SFut = Pin<Box<dyn Future<Output = Result<BoxSrv, Outcome>>>>;
     type CFut = Pin<Box<dyn Future<Output = Result<BoxIo, String>>>>;
 
     fn classify<E>(e: TlsError<E, std::convert::Infallible>) -> Outcome {
@@ -846,8 +1412,12 @@ mod acc {
         hd: DuplexStream, // harness end of the client's transport
         cli: String,
         held: Vec<u8>,
-        sstream: Option<BoxIo>,
+        sstream: Option<BoxSrv>,
         cstream: Option<BoxIo>,
+        ctl: Arc<Ctl>,
+        lib: String,
+        /// a transfer ended with shutdown (or broke): the connection carries no further payload
+        finished: bool,
         // bookkeeping used by the T3 oracle (observed facts, not the model)
         deadline_ms: u64,
         produced: u32,
@@ -967,14 +1537,15 @@ mod acc {
             let (sa, hs) = tokio::io::duplex(1 << 22);
             let (cd, hd) = tokio::io::duplex(1 << 22);
             let cfut = new_client(cli, cd)?;
+            let ctl = Arc::new(Ctl::default());
             let sfut: SFut = match lib {
                 "r" => {
-                    let f = self.rsvc.call(Dx(sa));
-                    Box::pin(async move { f.await.map(|s| Box::new(s) as BoxIo).map_err(classify) })
+                    let f = self.rsvc.call(Dx::with_ctl(sa, ctl.clone()));
+                    Box::pin(async move { f.await.map(|s| Box::new(s) as BoxSrv).map_err(classify) })
                 }
                 "o" => {
-                    let f = self.osvc.call(Dx(sa));
-                    Box::pin(async move { f.await.map(|s| Box::new(s) as BoxIo).map_err(classify) })
+                    let f = self.osvc.call(Dx::with_ctl(sa, ctl.clone()));
+                    Box::pin(async move { f.await.map(|s| Box::new(s) as BoxSrv).map_err(classify) })
                 }
                 _ => return None,
             };
@@ -988,6 +1559,9 @@ mod acc {
                 held: vec![],
                 sstream: None,
                 cstream: None,
+                ctl,
+                lib: lib.to_string(),
+                finished: false,
                 deadline_ms: self.now_ms() + self.tmo_ms,
                 produced: 0,
                 delivered: 0,
@@ -1022,6 +1596,7 @@ mod acc {
             // server -> client bytes travel immediately
             if let Some(hs) = c.hs.as_mut() {
                 let (bytes, _) = drain(hs);
+                c.ctl.credit(bytes.len());
                 if !bytes.is_empty() {
                     push(&mut c.hd, &bytes);
                 }
@@ -1237,7 +1812,7 @@ mod acc {
         /// payload both ways over an accepted stream; the harness sits in the middle of the transport
         async fn op_echo(&mut self, k: usize, n: usize, seed: u64) -> Option<String> {
             let c = self.conns.get_mut(k)?;
-            if c.result != Some(Outcome::Ok) || c.sstream.is_none() || n > (1 << 20) {
+            if c.result != Some(Outcome::Ok) || c.sstream.is_none() || c.finished || n > (1 << 20) {
                 return None;
             }
             // finish the client's side of the handshake (TLS 1.2: it still has to read the server's Finished)
@@ -1331,6 +1906,222 @@ mod acc {
             Some(out)
         }
 
+        /// the client's side of the handshake is finished (TLS 1.2: it still has to read the server's Finished)
+        fn ensure_client(&mut self, k: usize) -> Result<(), &'static str> {
+            let c = &mut self.conns[k];
+            if let Some(f) = c.cfut.as_mut() {
+                let w = noop();
+                if let Poll::Ready(r) = pollu(&w, |cx| f.as_mut().poll(cx)) {
+                    c.cfut = None;
+                    match r {
+                        Ok(s) => c.cstream = Some(s),
+                        Err(e) => {
+                            self.t3.push(format!("acceptor reported success for connection {k} but the {} client failed: {e}", c.cli));
+                            return Err("client-failed");
+                        }
+                    }
+                }
+            }
+            let c = &self.conns[k];
+            if c.cstream.is_none() || c.hs.is_none() {
+                return Err("client-not-connected");
+            }
+            Ok(())
+        }
+
+        /// `xfer k <dir> <n> <seed> <cap> <rchunk> <d|b> <wmode> <fin> <rmode>`: the data-path clause of the
+        /// property on one accepted stream.  `n` pseudo-random bytes travel acceptor->peer (`s2c`),
+        /// peer->acceptor (`c2s`) or both ways at once over a transport whose write window is `cap` bytes
+        /// (0 = unlimited), that hands out at most `rchunk` bytes per read (0 = unlimited) and that either
+        /// passes writes on directly (`d`) or holds them until flushed (`b`, like a `BufWriter`).  Writers:
+        /// one `write_all`-style loop (`all`), random chunks (`chunk`), random chunks each followed by a
+        /// flush (`cflush`), vectored writes of 1..4 slices (`vec`).  `fin = flush`: flush, then wait until
+        /// the peer has read every byte (nobody shuts down); `fin = shut`: shut down without a flush, the
+        /// peer must read the payload followed by a clean end of stream.  Readers: one buffer filled to the
+        /// end (`exact`) or random small buffers (`small`).  Everything is polled by hand: a state in which
+        /// nobody has been woken and somebody is not done is a lost-bytes stall.
+        fn op_xfer(&mut self, k: usize, p: &XferP) -> Option<String> {
+            let c = self.conns.get(k)?;
+            if c.result != Some(Outcome::Ok) || c.sstream.is_none() || c.finished {
+                return None;
+            }
+            if let Err(e) = self.ensure_client(k) {
+                return Some(e.into());
+            }
+            let c = self.conns.get_mut(k)?;
+            let mut r = Rng::new(p.seed);
+            let down: Vec<u8> = if p.dir != Dir::C2s { (0..p.n).map(|_| r.next() as u8).collect() } else { vec![] };
+            let up: Vec<u8> = if p.dir != Dir::S2c { (0..p.n).map(|_| r.next() as u8).collect() } else { vec![] };
+            let mut ss = c.sstream.take().unwrap();
+            let mut cs = c.cstream.take().unwrap();
+            let ctl = c.ctl.clone();
+            ctl.with(|x| {
+                x.cap = p.cap;
+                x.rchunk = p.rchunk;
+                x.buffered = p.buffered;
+                x.inflight = 0;
+            });
+            let mut srv = Side::new(down.clone(), up.len(), p, p.seed ^ 0x5e);
+            let mut cli = Side::new(up.clone(), down.len(), p, p.seed ^ 0xc1);
+            let mut mid = Mid { io: c.hs.as_mut().unwrap(), ctl: ctl.clone() };
+            let hd = &mut c.hd;
+            let mut pump = Box::pin(tokio::io::copy_bidirectional(&mut mid, hd));
+            let mut pump_done = false;
+            let flag = Flag::new();
+            let w = Waker::from(flag.clone());
+            let mut rounds = 0u64;
+            #[derive(PartialEq)]
+            enum V {
+                Done,
+                Stalled,
+                Livelock,
+            }
+            let verdict = loop {
+                flag.clear();
+                rounds += 1;
+                let done = pollu(&w, |cx| {
+                    let a = srv.poll(&mut *ss, cx);
+                    let b = cli.poll(&mut *cs, cx);
+                    if !pump_done && pump.as_mut().poll(cx).is_ready() {
+                        pump_done = true;
+                    }
+                    Poll::Ready(a && b)
+                });
+                if let Poll::Ready(true) = done {
+                    break V::Done;
+                }
+                if !flag.get() {
+                    break V::Stalled;
+                }
+                if rounds > 20_000_000 {
+                    break V::Livelock;
+                }
+            };
+            // nothing but the payload: with everything delivered, a further read finds no byte (and, unless
+            // somebody shut down, no end of stream either)
+            let mut extra: Vec<String> = vec![];
+            if verdict == V::Done && srv.err.is_none() && cli.err.is_none() && p.fin == Fin::Flush {
+                for _ in 0..1000 {
+                    flag.clear();
+                    let _ = pollu(&w, |cx| {
+                        if !pump_done && pump.as_mut().poll(cx).is_ready() {
+                            pump_done = true;
+                        }
+                        probe_read(&mut *ss, cx, "acceptor", &mut extra);
+                        probe_read(&mut *cs, cx, "peer", &mut extra);
+                        Poll::Ready(())
+                    });
+                    if !flag.get() || !extra.is_empty() {
+                        break;
+                    }
+                }
+            }
+            drop(pump);
+            let held = ctl.with(|x| {
+                let held = x.wbuf.len();
+                x.cap = 0;
+                x.rchunk = 0;
+                x.buffered = false;
+                held
+            });
+            let desc = format!("lib={} cli={} {}", c.lib, c.cli, p.text);
+            let progress = format!(
+                "acceptor->peer {}/{} bytes arrived (writer {}), peer->acceptor {}/{} bytes arrived (writer {})",
+                cli.got.len(), down.len(), srv.wstate(), srv.got.len(), up.len(), cli.wstate()
+            );
+            let mut out = "ok";
+            if let Some(e) = srv.err.as_ref().map(|e| format!("acceptor side: {e}")).or(cli.err.as_ref().map(|e| format!("peer side: {e}"))) {
+                self.t3.push(format!("xfer on connection {k} failed: {e}; {progress}; {desc}"));
+                out = "io-error";
+            } else if verdict == V::Stalled {
+                self.t3.push(format!("xfer on connection {k} stalled, written bytes never reach the other side: {progress}; {held} bytes left in the transport's buffer; {desc}"));
+                out = "stalled";
+            } else if verdict == V::Livelock {
+                self.t3.push(format!("xfer on connection {k} does not terminate: {progress}; {desc}"));
+                out = "livelock";
+            } else if cli.got != down || srv.got != up {
+                self.t3.push(format!("xfer on connection {k}: payload arrived changed ({} / {} bytes differ); {desc}", diff(&cli.got, &down), diff(&srv.got, &up)));
+                out = "mismatch";
+            } else if !extra.is_empty() {
+                self.t3.push(format!("xfer on connection {k}: {}; {desc}", extra.join("; ")));
+                out = "extra";
+            } else if held > 0 {
+                self.t3.push(format!("xfer on connection {k}: the transport still holds {held} unflushed bytes after the writer's flush/shutdown returned; {desc}"));
+                out = "unflushed";
+            }
+            c.sstream = Some(ss);
+            c.cstream = Some(cs);
+            if p.fin == Fin::Shut || out != "ok" {
+                c.finished = true;
+            }
+            Some(out.into())
+        }
+
+        /// `rdy k <r|p> <r|p>`: the transport answers `poll_read_ready` / `poll_write_ready` with ready (`r`) or
+        /// pending (`p`); the accepted stream's `ActixStream` methods must give the transport's own answers
+        /// (value, pending-ness, and the wake-up when the transport becomes ready), each asking only its own
+        /// direction
+        fn op_rdy(&mut self, k: usize, rd_p: bool, wr_p: bool) -> Option<String> {
+            let c = self.conns.get_mut(k)?;
+            if c.result != Some(Outcome::Ok) || c.sstream.is_none() || c.finished {
+                return None;
+            }
+            let ss = c.sstream.as_ref().unwrap();
+            let ctl = c.ctl.clone();
+            let counts = |ctl: &Ctl| ctl.with(|x| (x.n_rready, x.n_wready));
+            ctl.with(|x| {
+                x.rd_pending = rd_p;
+                x.wr_pending = wr_p;
+            });
+            let (fr, fw) = (Flag::new(), Flag::new());
+            let c0 = counts(&ctl);
+            let a = pollu(&Waker::from(fr.clone()), |cx| ss.rd_ready(cx));
+            let c1 = counts(&ctl);
+            let b = pollu(&Waker::from(fw.clone()), |cx| ss.wr_ready(cx));
+            let c2 = counts(&ctl);
+            let mut bad: Vec<String> = vec![];
+            if (c1.0 - c0.0, c1.1 - c0.1) != (1, 0) {
+                bad.push(format!("poll_read_ready asked the transport ({} read-ready, {} write-ready) times", c1.0 - c0.0, c1.1 - c0.1));
+            }
+            if (c2.0 - c1.0, c2.1 - c1.1) != (0, 1) {
+                bad.push(format!("poll_write_ready asked the transport ({} read-ready, {} write-ready) times", c2.0 - c1.0, c2.1 - c1.1));
+            }
+            let show = |r: &Poll<std::io::Result<Ready>>| match r {
+                Poll::Pending => "pending".to_string(),
+                Poll::Ready(Ok(_)) => "ready".to_string(),
+                Poll::Ready(Err(e)) => format!("error:{:?}", e.kind()),
+            };
+            match &a {
+                Poll::Pending if rd_p => {}
+                Poll::Ready(Ok(v)) if !rd_p && *v == rd_ready_value() => {}
+                other => bad.push(format!("poll_read_ready answered {other:?}, the transport answers {}", if rd_p { "Pending".to_string() } else { format!("{:?}", rd_ready_value()) })),
+            }
+            match &b {
+                Poll::Pending if wr_p => {}
+                Poll::Ready(Ok(v)) if !wr_p && *v == wr_ready_value() => {}
+                other => bad.push(format!("poll_write_ready answered {other:?}, the transport answers {}", if wr_p { "Pending".to_string() } else { format!("{:?}", wr_ready_value()) })),
+            }
+            // the transport becomes readable, then writable: exactly the task that asked for that direction is woken
+            ctl.fire(true);
+            if fr.get() != rd_p || fw.get() {
+                bad.push(format!("transport became readable: read-ready task woken={} (expected {rd_p}), write-ready task woken={}", fr.get(), fw.get()));
+            }
+            fr.clear();
+            ctl.fire(false);
+            if fw.get() != wr_p || fr.get() {
+                bad.push(format!("transport became writable: write-ready task woken={} (expected {wr_p}), read-ready task woken={}", fw.get(), fr.get()));
+            }
+            let (wrapper, wrapped) = ss.wv();
+            if wrapper != wrapped {
+                bad.push(format!("is_write_vectored is {wrapper} but the TLS stream it wraps says {wrapped}"));
+            }
+            let out = format!("rd={} wr={}", show(&a), show(&b));
+            for m in bad {
+                self.t3.push(format!("readiness pass-through of accepted stream {k} (lib={}): {m}", c.lib));
+            }
+            Some(out)
+        }
+
         pub async fn op(&mut self, ws: &[&str]) -> String {
             let idx = |s: &str| s.parse::<usize>().ok();
             let r: Option<String> = match ws {
@@ -1353,6 +2144,11 @@ mod acc {
                     (Some(k), Ok(n), Ok(seed)) => self.op_echo(k, n, seed).await,
                     _ => None,
                 },
+                ["xfer", k, rest @ ..] => match (idx(k), XferP::parse(rest)) {
+                    (Some(k), Some(p)) => self.op_xfer(k, &p),
+                    _ => None,
+                },
+                ["rdy", k, a @ ("r" | "p"), b @ ("r" | "p")] => idx(k).and_then(|k| self.op_rdy(k, *a == "p", *b == "p")),
                 _ => None,
             };
             r.unwrap_or_else(|| "bad-op".into())
@@ -1535,7 +2331,7 @@ mod tconn {
         let (cend, send) = tokio::io::duplex(1 << 20);
         let seen = Rc::new(RefCell::new(0usize));
         let sio = Counted { io: send, seen: seen.clone() };
-        let conn = Connection::new(op.host.clone(), Dx(cend));
+        let conn = Connection::new(op.host.clone(), Dx::plain(cend));
         let n = op.payload;
         let r = super::catch(|| {
             rt.block_on(async {
@@ -1837,6 +2633,118 @@ fn gen_c18(a: &Args, w: &mut dyn Write) {
             writeln!(w, "poll {k}").unwrap();
         }
     };
+    // (E) the data path of an accepted stream ("bytes written on either side arrive unchanged on the other"):
+    //     both acceptors x four client stacks; transports with a small write window (back-pressure on the
+    //     last write), short reads, or a buffer that only a flush / shutdown empties; payloads 0..64 KiB;
+    //     writers that flush and then wait for the peer to have read everything, writers that shut down;
+    //     chunked and vectored writes; partial reads; the ActixStream readiness methods.
+    // (E1) the smallest scenarios first, one transfer per case (these are what a replay shrinks to)
+    let minimal = [
+        "s2c 1024 1 1024 0 d all flush exact",
+        "c2s 1024 2 1024 0 d all flush exact",
+        "s2c 1024 3 0 0 b all flush exact",
+        "s2c 1024 4 1024 0 d all shut exact",
+        "s2c 1024 5 1024 0 d vec flush exact",
+        "both 5000 6 4096 0 d all flush exact",
+    ];
+    for lib in libs {
+        for cli in clis {
+            for (i, x) in minimal.iter().enumerate() {
+                writeln!(w, "case data-min-{lib}-{cli}-{i} kind=acc max=2 tmo=1000").unwrap();
+                writeln!(w, "call {lib} {cli}").unwrap();
+                stage(w, 0, 4);
+                writeln!(w, "xfer 0 {x}").unwrap();
+            }
+            writeln!(w, "case data-min-{lib}-{cli}-rdy kind=acc max=2 tmo=1000").unwrap();
+            writeln!(w, "call {lib} {cli}").unwrap();
+            stage(w, 0, 4);
+            writeln!(w, "rdy 0 p p").unwrap();
+            writeln!(w, "rdy 0 r r").unwrap();
+        }
+    }
+    // (E2) systematic: every (direction, writer, reader) combination for every (acceptor, client, transport
+    //      kind), sizes / windows / read chunks rotating through the boundary values; each connection ends
+    //      with a transfer that shuts down
+    let xn = [0usize, 1, 17, 1000, 1023, 1024, 1025, 4096, 4097, 5000, 16384, 16385, 16406, 20000, 40000, 65536];
+    let xcap = [1024usize, 0, 4096, 1, 2048, 100, 333];
+    let xrc = [0usize, 1, 0, 7, 100, 0, 1024, 5000];
+    let dirs = ["s2c", "c2s", "both"];
+    let wms = ["all", "chunk", "cflush", "vec"];
+    let rms = ["exact", "small"];
+    let mut xi = 0usize;
+    for lib in libs {
+        for cli in clis {
+            for tb in ["d", "b"] {
+                writeln!(w, "case data-{lib}-{cli}-{tb} kind=acc max=2 tmo=1000").unwrap();
+                let mut combos: Vec<(usize, usize, usize)> = vec![];
+                for d in 0..3 {
+                    for wm in 0..4 {
+                        for rm in 0..2 {
+                            combos.push((d, wm, rm));
+                        }
+                    }
+                }
+                let per_conn = if thorough { 4 } else { 6 };
+                for (k, chunk) in combos.chunks(per_conn).enumerate() {
+                    writeln!(w, "call {lib} {cli}").unwrap();
+                    stage(w, k, 4);
+                    writeln!(w, "rdy {k} {} {}", ["r", "p"][k % 2], ["r", "p"][(k / 2) % 2]).unwrap();
+                    for (j, (d, wm, rm)) in chunk.iter().enumerate() {
+                        xi += 1;
+                        // a window of one byte costs one scheduling round per byte: keep those payloads moderate
+                        let cap = xcap[xi % xcap.len()];
+                        let n = if cap == 1 { xn[xi % 10] } else { xn[(xi * 7) % xn.len()] };
+                        let last = j + 1 == chunk.len();
+                        writeln!(w, "xfer {k} {} {n} {xi} {cap} {} {tb} {} {} {}", dirs[*d], xrc[(xi / 3) % xrc.len()], wms[*wm], if last { "shut" } else { "flush" }, rms[*rm]).unwrap();
+                    }
+                    if k == 0 {
+                        // a stream that was shut down carries nothing further
+                        writeln!(w, "echo {k} 10 1").unwrap();
+                        writeln!(w, "rdy {k} r r").unwrap();
+                    }
+                }
+                writeln!(w, "ready").unwrap();
+            }
+        }
+    }
+    // (E3) seeded random transfers
+    let xcases = if thorough { 640 } else { 64 };
+    for c in 0..xcases {
+        let lib = libs[c % 2];
+        let cli = clis[(c / 2) % 4];
+        writeln!(w, "case data-rnd-{c} kind=acc max=2 tmo=1000").unwrap();
+        writeln!(w, "call {lib} {cli}").unwrap();
+        stage(w, 0, 4);
+        let nx = rng.range(3, 10);
+        for j in 0..nx {
+            if rng.chance(1, 5) {
+                writeln!(w, "rdy 0 {} {}", rng.pick(&["r", "p"]), rng.pick(&["r", "p"])).unwrap();
+            }
+            let cap = *rng.pick(&[0usize, 1, 2, 64, 100, 512, 1024, 1500, 2048, 4096, 16384]);
+            let n = match rng.below(4) {
+                0 => *rng.pick(&xn),
+                1 => rng.below(if cap <= 2 { 3000 } else { 65537 }),
+                2 => cap.saturating_sub(30) + rng.below(60),
+                _ => rng.below(3000),
+            };
+            let n = if cap <= 2 { n.min(20000) } else { n };
+            writeln!(
+                w,
+                "xfer 0 {} {n} {} {cap} {} {} {} {} {}",
+                rng.pick(&dirs),
+                rng.below(100000),
+                rng.pick(&[0usize, 0, 1, 2, 7, 100, 1024, 4096, 20000]),
+                rng.pick(&["d", "b"]),
+                rng.pick(&wms),
+                if j + 1 == nx { "shut" } else { "flush" },
+                rng.pick(&rms)
+            )
+            .unwrap();
+        }
+        if rng.chance(1, 4) {
+            writeln!(w, "{}", rng.pick(&["xfer 0 s2c 10 1 0 0 d all flush exact", "echo 0 5 5", "rdy 0 p p", "xfer 0 s2c 10 1 0 0 d all flush", "xfer 0 up 10 1 0 0 d all flush exact", "xfer 0 s2c 010 1 0 0 d all flush exact", "xfer 0 s2c 10 1 0 0 x all flush exact", "xfer 0 s2c 1048577 1 0 0 d all flush exact", "rdy 0 r", "rdy 0 x r"])).unwrap();
+        }
+    }
     // (A) one connection, every client behaviour, both acceptors, four client stacks
     let mut rot = 0usize;
     for lib in libs {
@@ -2050,8 +2958,25 @@ fn gen_c18(a: &Args, w: &mut dyn Write) {
                 14 => writeln!(w, "drop {k}").unwrap(),
                 15 => writeln!(w, "advance {}", rng.pick(&[0u64, 1, 10, 50, 99, 100, 101, t - 1, t, t + 1, 700])).unwrap(),
                 16 | 17 => writeln!(w, "run {}", rng.pick(&[0u64, 1, 5, 50, 100, t / 2, t, t + 7])).unwrap(),
-                18 => writeln!(w, "echo {k} {} {}", rng.pick(&sizes), rng.below(1000)).unwrap(),
-                _ => writeln!(w, "{}", rng.pick(&["poll 9", "poll x", "cflight 0 half", "garbage 0 salt", "advance 20001", "run -1", "echo 0 1", "call x r13", "call r tls9", "ready now", "frob"])).unwrap(),
+                18 => match rng.below(4) {
+                    0 => writeln!(w, "echo {k} {} {}", rng.pick(&sizes), rng.below(1000)).unwrap(),
+                    1 => writeln!(w, "rdy {k} {} {}", rng.pick(&["r", "p"]), rng.pick(&["r", "p"])).unwrap(),
+                    _ => writeln!(
+                        w,
+                        "xfer {k} {} {} {} {} {} {} {} {} {}",
+                        rng.pick(&["s2c", "c2s", "both"]),
+                        rng.pick(&sizes),
+                        rng.below(1000),
+                        rng.pick(&[0usize, 100, 1024, 4096]),
+                        rng.pick(&[0usize, 1, 100]),
+                        rng.pick(&["d", "b"]),
+                        rng.pick(&["all", "chunk", "cflush", "vec"]),
+                        rng.pick(&["flush", "flush", "shut"]),
+                        rng.pick(&["exact", "small"])
+                    )
+                    .unwrap(),
+                },
+                _ => writeln!(w, "{}", rng.pick(&["poll 9", "poll x", "cflight 0 half", "garbage 0 salt", "advance 20001", "run -1", "echo 0 1", "call x r13", "call r tls9", "ready now", "frob", "xfer 0 s2c 1 1 0 0 d all flush", "xfer 0 s2c 1 1 0 0 d all close exact", "rdy 0 r", "rdy 0 w r"])).unwrap(),
             }
         }
         writeln!(w, "run {}", t + 1).unwrap();
